@@ -17,13 +17,13 @@ def run_vi(probe, lines, timeout=1200):
     outs = [l for l in p.stdout.decode("utf-8", "surrogateescape").split("\n") if l]
     crashes = []
     se = p.stderr
-    reports = re.findall(rb"(ERROR: AddressSanitizer: [^\n]*|runtime error: [^\n]*)", se)
+    reports = re.findall(rb"(ERROR: AddressSanitizer: [^\n]*|runtime error: [^\n]*|WARNING: MemorySanitizer: [^\n]*)", se)
     frames = re.findall(rb"#\d+ 0x[0-9a-f]+ in (\w+) [^\n]*?([\w.]+\.[ch]):(\d+)", se)
     k = 0
     for o in outs:
         m = re.search(r" CHILD=(\w+)$", o)
         if m:
-            kind = "timeout" if m.group(1) == "sig14" else ("asan" if m.group(1) in ("exit99", "exit98") else m.group(1))
+            kind = "timeout" if m.group(1) == "sig14" else ("asan" if m.group(1) in ("exit99", "exit98") else ("msan" if m.group(1) == "exit97" else m.group(1)))
             detail = reports[k].decode("utf-8", "replace") if k < len(reports) else ""
             if frames and k == 0: detail += " at " + " < ".join("%s(%s:%s)" % (a.decode(), b.decode(), c.decode()) for a, b, c in frames[:4])
             k += 1
